@@ -353,4 +353,56 @@ theorem validCombos_mapKey {ops : Ops K} {ops' : Ops K'} {ρ : K → K'} (h : Ke
 
 end MapKey
 
+/-! ## Dropping reservation columns that can never bind ("untracked memories") -/
+
+/-- Apply `π` (e.g. delete the columns of some memories) to the reservation profile. -/
+def mapRes (π : Vec → Vec) (c : Cand K) : Cand K := ⟨c.key, c.obj, π c.res⟩
+
+/-- The reservation algebra commutes with `π` (columns of different memories do not interact). -/
+structure ResHom (ops ops' : Ops K) (π : Vec → Vec) : Prop where
+  kjoin : ∀ k l, ops'.kjoin k l = ops.kjoin k l
+  rjoin : ∀ k l r s, ops'.rjoin k l (π r) (π s) = π (ops.rjoin k l r s)
+
+theorem combine_mapRes {ops ops' : Ops K} {π : Vec → Vec} (h : ResHom ops ops' π) (a b : Cand K) :
+    combine ops' (mapRes π a) (mapRes π b) = (combine ops a b).map (mapRes π) := by
+  simp only [combine, mapRes, h.kjoin, h.rjoin]
+  cases ops.kjoin a.key b.key <;> rfl
+
+theorem combineFrom_mapRes {ops ops' : Ops K} {π : Vec → Vec} (h : ResHom ops ops' π) :
+    ∀ (cs : List (Cand K)) (a : Cand K),
+      combineFrom ops' (mapRes π a) (cs.map (mapRes π)) = (combineFrom ops a cs).map (mapRes π)
+  | [], a => rfl
+  | c :: cs, a => by
+    simp only [List.map_cons, combineFrom, combine_mapRes h]
+    cases combine ops a c with
+    | none => rfl
+    | some q => exact combineFrom_mapRes h cs q
+
+theorem allCombos_mapRes {ops ops' : Ops K} {π : Vec → Vec} (h : ResHom ops ops' π)
+    (tables : List (List (Cand K))) :
+    allCombos ops' (tables.map (List.map (mapRes π))) = (allCombos ops tables).map (mapRes π) := by
+  unfold allCombos
+  rw [choices_map, List.filterMap_map, List.map_filterMap]
+  congr 1
+  funext cs
+  cases cs with
+  | nil => rfl
+  | cons a cs => simpa [combineAll] using combineFrom_mapRes h cs a
+
+/-- **`untracked_sound`.** If the dropped reservation columns never decide the capacity test on any
+full combination (e.g. because the per-Einsum maxima of that memory sum to at most its capacity, or it
+is never reserved across a fused loop), then joining the tables *without* those columns yields exactly
+the same valid combinations, seen through their class and objectives. -/
+theorem untracked_sound {ops ops' : Ops K} {π : Vec → Vec} (h : ResHom ops ops' π) (cap : Int)
+    (tables : List (List (Cand K)))
+    (hnb : ∀ s ∈ allCombos ops tables, fits cap (π s.res) = fits cap s.res) :
+    validCombos ops' cap (tables.map (List.map (mapRes π))) =
+      (validCombos ops cap tables).map (mapRes π) := by
+  unfold validCombos
+  rw [allCombos_mapRes h, List.filter_map]
+  congr 1
+  apply List.filter_congr
+  intro s hs
+  exact hnb s hs
+
 end AFV.Search
